@@ -39,7 +39,7 @@ const (
 	seqC = 6
 )
 
-var opNames = []string{"PushAmid", "PushAfin", "PushBmid", "PushAeoe", "Maintain", "Close", "TickMaintain", "PushAmidTs", "PushAraw", "PushOwn", "PushOwn2"}
+var opNames = []string{"PushAmid", "PushAfin", "PushBmid", "PushAeoe", "Maintain", "Close", "TickMaintain", "PushAmidTs", "PushAraw", "PushOwn", "PushOwn2", "PushHiMid", "PushLoMid"}
 
 const (
 	oPushAmid = iota
@@ -53,6 +53,8 @@ const (
 	oPushAraw     // Push(type, bytes) with a caller buffer that is overwritten as soon as Push has returned
 	oPushOwn      // a record opening the thread's OWN sequence (100 + 2*thread index)
 	oPushOwn2     // a second record of the thread's own sequence
+	oPushHiMid    // a record opening a sequence ABOVE A, B and C (9)
+	oPushLoMid    // a record opening a sequence BELOW A, B and C (3)
 )
 
 // Program is one driver program: per thread a list of op codes.
@@ -72,6 +74,9 @@ type Program struct {
 	LockerStream bool
 	// PanicOnce: the first Stream callback panics; the caller of the API recovers and goes on using the object
 	PanicOnce bool
+	// Pre: operations performed one after another BEFORE the threads start - the schedules are explored from a
+	// non-initial state (events already buffered whose pushes returned long before anything races)
+	Pre []int
 }
 
 func (p Program) String() string {
@@ -98,6 +103,13 @@ func (p Program) String() string {
 	}
 	if p.PanicOnce {
 		x += " first-callback-panics(recovered)"
+	}
+	if len(p.Pre) > 0 {
+		var os []string
+		for _, o := range p.Pre {
+			os = append(os, opNames[o])
+		}
+		x += " before-the-threads-start=[" + strings.Join(os, ";") + "]"
 	}
 	return fmt.Sprintf("maxInFlight=%d stream=%d timeout=%d%s threads=[%s]", p.MaxInFlight, p.Stream, p.Timeout, x, strings.Join(ts, " | "))
 }
@@ -303,6 +315,10 @@ func (h *harness) doT(ti int, op int, nested bool) {
 	switch op {
 	case oPushOwn, oPushOwn2:
 		h.push(uint32(100+2*ti), 1300, nested)
+	case oPushHiMid:
+		h.push(9, 1300, nested)
+	case oPushLoMid:
+		h.push(3, 1300, nested)
 	case oPushAmidTs:
 		h.pushTs(seqA, 1300, nested, time.Unix(1700000077, 0).UTC())
 	case oPushAraw:
@@ -391,6 +407,9 @@ func newHarness(p Program) *harness {
 		panic(err)
 	}
 	h.r = r
+	for _, op := range p.Pre {
+		h.doT(0, op, true) // no model thread is running yet: scheduling points pass through
+	}
 	return h
 }
 
@@ -495,6 +514,30 @@ func programs(tier string) []Program {
 	var out []Program
 	tp := threadPrograms(2)
 	streams := []int{0, 1, 2, 3}
+	// schedules explored from NON-INITIAL states: events buffered before the threads start (their pushes returned long
+	// before anything races), above and below the sequences the threads use, the list at and below its capacity; three
+	// single-op threads of which one closes, and the two-thread programs that finish event A twice
+	{
+		one := threadPrograms(1)
+		pres := [][]int{{oPushHiMid}, {oPushLoMid}, {oPushHiMid, oPushLoMid}, {oPushLoMid, oPushAmid}}
+		for _, m := range []int{1, 2} {
+			for _, pre := range pres {
+				for i := 0; i < len(one); i++ {
+					for j := i; j < len(one); j++ {
+						for k := j; k < len(one); k++ {
+							if one[i][0] != oClose && one[j][0] != oClose && one[k][0] != oClose {
+								continue
+							}
+							out = append(out, Program{Threads: [][]int{one[i], one[j], one[k]}, MaxInFlight: m, Pre: pre})
+						}
+					}
+				}
+				for _, ths := range [][][]int{{{oPushAeoe}, {oPushAeoe}}, {{oPushAeoe}, {oPushAfin}}, {{oPushAeoe, oPushAmid}, {oPushAeoe}}, {{oPushAeoe}, {oMaintain}}, {{oPushAfin}, {oPushBmid, oPushAeoe}}} {
+					out = append(out, Program{Threads: ths, MaxInFlight: m, Pre: pre})
+				}
+			}
+		}
+	}
 	for _, m := range []int{0, 1, 2} {
 		for _, s := range streams {
 			for i := 0; i < len(tp); i++ {
